@@ -8,12 +8,13 @@ EXPECTED = {
     "__init__": [
         "super().__init__()",
         "self.num_thresholds = len(init_thresholds)",
+        "if not slope > 0:\n    raise ValueError('slope must be positive')",       # guard (F41): the model assumes slope > 0
         "self.slope = slope",
         "self._frozen = False",
         "init_t = torch.tensor(init_thresholds, dtype=torch.float32)",
         "first = init_t[:1]",
         "diffs = torch.diff(init_t, prepend=first.new_zeros(1))",
-        "if (diffs <= 0).any():\n    raise ValueError('init_thresholds must be positive and strictly increasing')",
+        "if not (diffs > 0).all() or not torch.isfinite(init_t).all():\n    raise ValueError('init_thresholds must be finite, positive and strictly increasing')",
         "raw = torch.where(diffs > 20.0, diffs, torch.log(torch.expm1(diffs)))",
         "self.raw_diffs = nn.Parameter(raw)",
     ],
@@ -23,6 +24,7 @@ EXPECTED = {
     "freeze_thresholds": [
         "with torch.no_grad():\n    thresholds = self.get_thresholds().round()\n    first = thresholds[:1]\n    diffs = torch.diff(thresholds, prepend=first.new_zeros(1))\n    self.raw_diffs.copy_(diffs)",
         "self.raw_diffs.requires_grad = False",
+        "self.raw_diffs.grad = None",          # (F40) an optimizer built earlier then skips the frozen parameter
         "self._frozen = True",
     ],
     "forward": [
